@@ -136,6 +136,10 @@ def diff_kind(a, b):
     ka, kb = leaf_kind(a), leaf_kind(b)
     if ka == kb == 'str':
         if a.lower() == b.lower():
+            # an internationalised name (A-label or non-ASCII) is case-normalised by the idna codec itself; a plain
+            # ASCII string that changes case is a different matter
+            if 'xn--' in a.lower() or any(ord(c) > 127 for c in a + b):
+                return 'str-case-idn'
             return 'str-case'
         return 'str->str'
     if ka == kb == 'b':
